@@ -812,6 +812,30 @@ def wl_choice() -> Workflow:
     )
 
 
+def wl_synthetic2(kind: str) -> Workflow:
+    """More synthetic shapes.  fail_beside_before: top-level a fails terminally next to b, whose
+    before-stage c (2 tasks) is still running; before2_fail: p with two parallel before-stages x
+    (fails) and y (2 tasks)."""
+    from stabilize.models.stage import SyntheticStageOwner
+
+    if kind == "fail_beside_before":
+        a = stage("a", tasks={"t1": {"kind": "terminal"}})
+        b = stage("b")
+        c = stage("c", tasks={"t1": dict(OK), "t2": dict(OK)}, synthetic_stage_owner=SyntheticStageOwner.STAGE_BEFORE)
+        d = stage("d", ["b"])
+        wf = workflow([a, b, c, d])
+        c.parent_stage_id = b.id
+        return wf
+    p = stage("p")
+    x = stage("x", tasks={"t1": {"kind": "terminal"}}, synthetic_stage_owner=SyntheticStageOwner.STAGE_BEFORE)
+    y = stage("y", tasks={"t1": dict(OK), "t2": dict(OK)}, synthetic_stage_owner=SyntheticStageOwner.STAGE_BEFORE)
+    d = stage("d", ["p"])
+    wf = workflow([p, x, y, d])
+    x.parent_stage_id = p.id
+    y.parent_stage_id = p.id
+    return wf
+
+
 def wl_synthetic(kind: str) -> Workflow:
     """p (top level) with pre-declared synthetic children, then d after p.
     after2[_fail|_failcont]: two parallel after-stages a1 (1 task; fails terminally in the _fail
@@ -865,6 +889,8 @@ WORKLOADS: dict[str, Callable[[], Workflow]] = {
     "after2": lambda: wl_synthetic("after2"),
     "after2_fail": lambda: wl_synthetic("after2_fail"),
     "after2_failcont": lambda: wl_synthetic("after2_failcont"),
+    "fail_beside_before": lambda: wl_synthetic2("fail_beside_before"),
+    "before2_fail": lambda: wl_synthetic2("before2_fail"),
     "before1": lambda: wl_synthetic("before1"),
     "before1_fail": lambda: wl_synthetic("before1_fail"),
 }
